@@ -36,6 +36,14 @@ func data(arg int) any {
 	return map[string]any{
 		"id":   a,
 		"name": strings.Repeat(string(rune('a'+a)), 5+3*a),
+		"esc":  esc(arg),
+		// strings for the regular expressions given as STRING operands (=~, ~=, match(), search()): the patterns of
+		// xRx select different subsets, and the subsets differ from data set to data set
+		"words": []any{
+			map[string]any{"s": "apple" + fmt.Sprint(a)}, map[string]any{"s": "banana"}, map[string]any{"s": "cab" + strings.Repeat("b", a%3)},
+			map[string]any{"s": "abc"}, map[string]any{"s": "x" + fmt.Sprint(a)}, map[string]any{"s": strings.Repeat("c", a%2) + "bb"},
+			map[string]any{"s": "anna" + strings.Repeat("a", a%2)}, map[string]any{"n": a},
+		},
 		"list": []any{a, float64(a) + 0.5, true, nil, strings.Repeat("x", a)},
 		"sub":  map[string]any{"k" + fmt.Sprint(a): []any{map[string]any{"x": a, "y": a * 2}, map[string]any{"x": a + 2, "y": "s"}}},
 		// operands of the shared filters: which rows match differs from data set to data set
@@ -59,6 +67,20 @@ func pad(arg int) string {
 	}
 	n := thresholds[cls] - 90 + 36*(arg%nArgs) // -90 .. +90 around the threshold
 	return strings.Repeat(string(rune('A'+arg%nArgs)), n)
+}
+
+// esc returns a string full of bytes that every writer emits as \u00XX (control characters other than
+// \b \t \n \f \r, 0x7f) and of < > & (escaped by the HTML-safe writers such as oj.Marshal).  The byte differs from
+// data set to data set, so two goroutines that encode at the same time write DIFFERENT escapes: a scratch
+// shared between writers tears visibly.  Odd data sets get 200 of them, even ones 6 (so that the size classes
+// still straddle their thresholds).
+func esc(arg int) string {
+	a := arg % nArgs
+	n := 6
+	if a%2 == 1 {
+		n = 200
+	}
+	return strings.Repeat(string([]byte{byte(1 + a), byte(14 + a)}), n/2) + "<&>\x7f" + string([]byte{byte(0x1a + a)}) + "&<"
 }
 
 // short keeps traces small: long texts are logged as length + digest + head (TLC only compares for equality).
@@ -128,6 +150,17 @@ var (
 		jp.MustParseString("$.rows[?(@.vals[*] > 2 && @.lim[*] < 5)].n"),
 	}
 	xMultiScript = jp.MustNewScript("(@.vals[*] > 2 && @.lim[1:] < 5)")
+	// shared expressions whose regular expressions are STRING operands (compiled at evaluation time), all different
+	xRx = []jp.Expr{
+		jp.MustParseString("$.words[?(@.s =~ '^a')].s"),
+		jp.MustParseString("$.words[?(@.s ~= 'an+a')].s"),
+		jp.MustParseString("$.words[?match(@.s, 'b.*')].s"),
+		jp.MustParseString("$.words[?search(@.s, 'c')].s"),
+		jp.MustParseString("$.words[?(@.s =~ 'x[0-9]$')].s"),
+		jp.MustParseString("$.words[?search(@.s, '^[a-c]{3}')].s"),
+		jp.MustParseString("$.words[?match(@.s, 'c?b+')].s"),
+		jp.MustParseString("$.words[?(@.s =~ 'a$' || @.s =~ '^b')].s"),
+	}
 )
 
 type recHandler struct{ sb strings.Builder }
@@ -186,11 +219,19 @@ func init() {
 		panic(err)
 	}
 	withKey := &ojg.Options{CreateKey: "type"}
+	rxop := func(name string, f func(x jp.Expr, d any) string) Op {
+		return Op{name, "pure", func(a int) (string, []byte) { return f(xRx[a%len(xRx)], data(a/3)), nil }}
+	}
+	for _, m := range structMakers { // the process-wide recomposer: types registered BEFORE any goroutine starts
+		if err = alt.DefaultRecomposer.RegisterComposer(m(0), nil); err != nil {
+			panic(err)
+		}
+	}
 	multi := func(name string, f func(x jp.Expr, d any) string) Op {
 		return Op{name, "pure", func(a int) (string, []byte) { return f(xMulti[a%len(xMulti)], data(a/2)), nil }}
 	}
 	single := func(arg int) any {
-		return []any{arg % nArgs, strings.Repeat("s", 3+arg%nArgs), map[string]any{"only": data(arg).(map[string]any)["list"]}, pad(arg)}
+		return []any{arg % nArgs, strings.Repeat("s", 3+arg%nArgs), map[string]any{"only": data(arg).(map[string]any)["list"]}, esc(arg), pad(arg)}
 	}
 	ops = []Op{
 		// ---- pooled writers: result copied (string / caller's io.Writer)
@@ -348,6 +389,48 @@ func init() {
 		}),
 		{"jp.Script.Eval(multi)", "pure", func(a int) (string, []byte) {
 			return canonStd(xMultiScript.Eval([]any{}, data(a).(map[string]any)["rows"])), nil
+		}},
+		// ---- shared expressions with regular expressions given as string operands
+		rxop("jp.Get(rx)", func(x jp.Expr, d any) string { return canonStd(x.Get(d)) }),
+		rxop("jp.First(rx)", func(x jp.Expr, d any) string { return canonStd(x.First(d)) }),
+		rxop("jp.Has(rx)", func(x jp.Expr, d any) string { return fmt.Sprint(x.Has(d)) }),
+		rxop("jp.Locate(rx)", func(x jp.Expr, d any) string {
+			var sb strings.Builder
+			for _, loc := range x.Locate(d, 0) {
+				sb.WriteString(loc.String() + ";")
+			}
+			return sb.String()
+		}),
+		rxop("jp.Walk(rx)", func(x jp.Expr, d any) string {
+			var sb strings.Builder
+			x.Walk(d, func(path jp.Expr, nodes []any) {
+				sb.WriteString(path.String() + "=" + canonStd(nodes[len(nodes)-1]) + ";")
+			})
+			return sb.String()
+		}),
+		rxop("jp.Remove(rx)", func(x jp.Expr, d any) string {
+			out, err := x.Remove(d)
+			return canonStd(out.(map[string]any)["words"]) + errStr(err)
+		}),
+		rxop("jp.Modify(rx)", func(x jp.Expr, d any) string {
+			_, err := x.Modify(d, func(e any) (any, bool) { return fmt.Sprint("m", e), true })
+			return canonStd(d.(map[string]any)["words"]) + errStr(err)
+		}),
+		// ---- remaining package-level state: the process-wide recomposer (warmed up), gen nodes (gen.Sort, gen.TimeFormat)
+		{"alt.Recompose(default)", "recompose", func(a int) (string, []byte) {
+			src := structMakers[(a+2)%len(structMakers)](a)
+			out, err := alt.Recompose(alt.Decompose(src, withKey), structMakers[(a+2)%len(structMakers)](0))
+			return fmt.Sprintf("%T %+v", out, out) + errStr(err), nil
+		}},
+		{"oj.JSON(gen)", "json", func(a int) (string, []byte) { return oj.JSON(alt.Generify([]any{a % nArgs, esc(a), pad(a)})), nil }},
+		{"sen.String(gen)", "json", func(a int) (string, []byte) { return sen.String(alt.Generify([]any{a % nArgs, esc(a), pad(a)})), nil }},
+		{"gen.Parser.Parse", "pure", func(a int) (string, []byte) {
+			p := gen.Parser{}
+			n, err := p.Parse(doc(a))
+			if n == nil {
+				return "nil" + errStr(err), nil
+			}
+			return canonStd(n.Simplify()) + errStr(err), nil
 		}},
 		// ---- recomposer: nested struct types behind containers of pointers, only the top level registered
 		{"Recomposer.Recompose(nested)", "recompose", func(a int) (string, []byte) {
